@@ -6,6 +6,7 @@
 -/
 import VerdeModel.Model.Surfer
 import VerdeModel.Lemmas.Num
+import VerdeModel.Lemmas.MinMax
 namespace Verde.C19
 open Verde
 
@@ -81,6 +82,65 @@ theorem load_ok_implies_faithful (f : SurferFile) (g : SurferGrid) (h : (loadSur
       · rw [← e1]; simp
       · rw [← e2]; simp
   · cases h
+
+theorem allclose1_self (x : Rat) : allclose1 x x = true := by
+  unfold allclose1
+  simp only [sub_self, decide_eq_true_eq]
+  have h0 : ratAbs 0 = 0 := by simp [ratAbs]
+  have h1 : 0 ≤ ratAbs x := by rw [ratAbs_eq_abs]; exact abs_nonneg x
+  rw [h0]
+  have : (0 : Rat) ≤ mkRat 1 100000000 := by decide +kernel
+  have : (0 : Rat) ≤ mkRat 1 100000 := by decide +kernel
+  positivity
+
+/-- **Every well-formed file loads, to exactly its contents.**  A file with `ny ≥ 2` body lines of `nx` values each, header counts
+    `ny nx`, two-number south/north and west/east lines and a data-range line that is (within `allclose`) the minimum and maximum
+    of the un-blanked values, is accepted, and the result is: shape `(ny, nx)`, northing/easting evenly spaced over the header
+    ranges, the values row by row in file order with sentinels blanked, and the grid id.  Any pattern of blanked cells is
+    allowed as long as one value is not blanked (`listMin … = some mn`). -/
+theorem load_wellformed (f : SurferFile) (ny nx : Nat) (south north west east lo hi mn mx : Rat) (hny : 2 ≤ ny)
+    (hshape : f.shapeLine.mapM Tok.asInt = some [(ny : Int), (nx : Int)])
+    (hns : f.nsLine.mapM Tok.asNum = some [south, north]) (hwe : f.weLine.mapM Tok.asNum = some [west, east])
+    (hrange : f.rangeLine.mapM Tok.asNum = some [lo, hi])
+    (hlen : f.body.length = ny) (hrows : ∀ r ∈ f.body, r.length = nx)
+    (hmn : listMin ((f.body.map (maskRow f.blank)).flatten.filterMap id) = some mn)
+    (hmx : listMax ((f.body.map (maskRow f.blank)).flatten.filterMap id) = some mx)
+    (hlo : allclose1 mn lo = true) (hhi : allclose1 mx hi = true) :
+    (loadSurfer f).1 = .ok ⟨[(ny : Int), (nx : Int)], linspace south north ny, linspace west east nx,
+      f.body.map (maskRow f.blank), f.gridId⟩ := by
+  have hhead : (f.body.headD []).length = nx := by
+    cases hb : f.body with
+    | nil => rw [hb] at hlen; simp at hlen; omega
+    | cons r rs => simp only [List.headD_cons]; exact hrows r (by rw [hb]; exact List.mem_cons_self)
+  have hrect : (f.body.all fun r => r.length == (f.body.headD []).length) = true := by
+    simp only [List.all_eq_true, beq_iff_eq]
+    intro r hr; rw [hhead]; exact hrows r hr
+  have hfs : fieldShape f.body = [(ny : Int), (nx : Int)] := by
+    unfold fieldShape
+    have : f.body.length ≠ 1 := by omega
+    rw [if_neg this, hlen, hhead]
+  unfold loadSurfer
+  simp only [parseHeader, hshape, hns, hwe, hrange, optOk, twoOk, bind, Except.bind, pure, Except.pure]
+  unfold loadBody
+  simp only [hrect, hfs, guardE, if_true, decide_true, bind, Except.bind, rangeCheck, hmn, hmx, hlo, hhi, Bool.and_self,
+    gridOfShape, Int.toNat_natCast]
+
+/-- In particular a writer that records the exact minimum and maximum of the un-blanked values always loads back. -/
+theorem load_wellformed_exact_range (f : SurferFile) (ny nx : Nat) (south north west east mn mx : Rat) (hny : 2 ≤ ny)
+    (hshape : f.shapeLine.mapM Tok.asInt = some [(ny : Int), (nx : Int)])
+    (hns : f.nsLine.mapM Tok.asNum = some [south, north]) (hwe : f.weLine.mapM Tok.asNum = some [west, east])
+    (hrange : f.rangeLine.mapM Tok.asNum = some [mn, mx])
+    (hlen : f.body.length = ny) (hrows : ∀ r ∈ f.body, r.length = nx)
+    (hmn : listMin ((f.body.map (maskRow f.blank)).flatten.filterMap id) = some mn)
+    (hmx : listMax ((f.body.map (maskRow f.blank)).flatten.filterMap id) = some mx) :
+    (loadSurfer f).1 = .ok ⟨[(ny : Int), (nx : Int)], linspace south north ny, linspace west east nx,
+      f.body.map (maskRow f.blank), f.gridId⟩ :=
+  load_wellformed f ny nx south north west east mn mx mn mx hny hshape hns hwe hrange hlen hrows hmn hmx
+    (allclose1_self mn) (allclose1_self mx)
+
+/-- The result does not depend on whether a path or an open handle is given (only the resource trace does). -/
+theorem path_and_handle_agree (f : SurferFile) (b : Bool) : (loadSurfer { f with isPath := b }).1 = (loadSurfer f).1 := by
+  unfold loadSurfer parseHeader loadBody gridOfShape; rfl
 
 /-- A body whose shape disagrees with the header counts is refused with an IOError, never loaded. -/
 theorem shape_mismatch_rejected (f : SurferFile) (hd : SurferHeader) (hh : parseHeader f = .ok hd)
